@@ -160,6 +160,34 @@ def pairs_for(case, i):
     return out
 
 
+def _pathways_from_metadata(i, md):
+    """A module-level pathway function (the same function object for every
+    call) that reads the groups of a vector from its metadata."""
+    return iter([(["path", b], b) for b in (md or {}).get("pw", [])])
+
+
+def _same_function_other_pathways(t, axis, rec):
+    """collapse(one_to_many) twice with the same function on tables with the
+    same IDs whose metadata names different groups: each result lists the
+    groups of *its* table."""
+    ids = [str(i) for i in t.ids(axis=axis)]
+    for rnd, names in enumerate((["g0", "g1"], ["h0", "h1", "h2"])):
+        u = t.copy()
+        u.add_metadata({i: {"pw": [names[(k + q) % len(names)]
+                                   for q in range(1 + k % 2)]}
+                        for k, i in enumerate(ids)}, axis=axis)
+        want = sorted({names[(k + q) % len(names)]
+                       for k in range(len(ids)) for q in range(1 + k % 2)})
+        r = u.collapse(_pathways_from_metadata, one_to_many=True, norm=False,
+                       axis=axis, one_to_many_md_key="pw")
+        got = sorted(str(i) for i in r.ids(axis=axis))
+        if got != want:
+            raise Violation("one-to-many-ids", "the same pathway function on "
+                            "a table whose metadata names the groups %r gave "
+                            "the groups %r (call %d)" % (want, got, rnd + 1))
+    rec.cls("one-to-many:same-function-other-pathways")
+
+
 class _Quiet:
     def cls(self, *a, **k):
         pass
@@ -213,6 +241,8 @@ def _check(case, rec, t):
 
         def gen_f(i, md):
             return iter(pairs_for(case, str(i)))
+        if case["salt"] % 3 == 0 and not t.is_empty():
+            _same_function_other_pathways(t, axis, rec)
         r = t.collapse(gen_f, one_to_many=True, norm=False,
                        one_to_many_mode=case["mode"], axis=axis,
                        one_to_many_md_key=case["md_key"],
